@@ -86,7 +86,7 @@ func (u *Unit) callValue(st *State, fr *Frame, instr ssa.Instruction, fv Val, ar
 	fn := fv.Fn.Fn
 	u.callSiteClauses(st, fr, relName(fn), args, pos)
 	c := u.eng.contractFor(fn)
-	if c != nil && !c.Inline {
+	if c != nil && !c.Inline && !(u.contract.Opts["inline-all"] != "" && !c.Trusted && u.canInline(st, fn)) {
 		return u.callContract(st, fr, fn, c, args, fv.Fn.Bind, resv, pos)
 	}
 	if u.canInline(st, fn) {
@@ -101,7 +101,7 @@ func (u *Unit) canInline(st *State, fn *ssa.Function) bool {
 		return false
 	}
 	pp := fnPkgPath(fn)
-	if !strings.HasPrefix(pp, repoMod) {
+	if !strings.HasPrefix(pp, repoMod) && !inlineExternal[fnKey(fn)] {
 		return false
 	}
 	if len(st.frames) >= maxInlineDepth {
@@ -202,6 +202,21 @@ func (u *Unit) checkPost(st *State, fr *Frame, rs []Val, pos token.Pos) {
 	env.fr = fr
 	env.useLocals = true
 	env.localsAfterVars = true
+	// ghost code: assignments to ghost variables at the return
+	for _, gu := range u.contract.Updates {
+		srt, ok := u.eng.ghostVars[gu.Var]
+		if !ok {
+			u.fail(fmt.Sprintf("%s: ghost-at-return: unknown ghost variable %s", gu.Where, gu.Var))
+			continue
+		}
+		v, err := u.eval(st, env, gu.Expr)
+		if err != nil || len(v.Terms) != 1 {
+			u.fail(fmt.Sprintf("%s: ghost-at-return %s: %v", gu.Where, gu.Var, err))
+			continue
+		}
+		u.frameCheckGhost(st, "G_"+gu.Var, pos)
+		u.heapSet(st, "G_"+gu.Var, srt, v.Terms[0])
+	}
 	// abandon-safety: every send that a spawned goroutine still owes fits into its channel
 	seen := map[Term]bool{}
 	for _, ch := range st.expectChans {
@@ -296,6 +311,11 @@ func (u *Unit) applyPre(st *State, c *FuncContract, env *SpecEnv, name string, p
 func (u *Unit) applyPost(st *State, c *FuncContract, env *SpecEnv) {
 	for _, en := range c.Ensures {
 		if err := u.assumeClause(st, env, en.Expr); err != nil {
+			msg := err.Error()
+			if strings.Contains(msg, "unknown identifier") || strings.Contains(msg, "cannot resolve") || strings.Contains(msg, "needs a local variable") {
+				// a postcondition about the callee's locals: meaningful only inside the callee
+				continue
+			}
 			u.fail(fmt.Sprintf("%s: ensures %q at call: %v", en.Where, en.Src, err))
 			continue
 		}
@@ -408,11 +428,13 @@ func (u *Unit) applyFrame(st *State, c *FuncContract, env *SpecEnv, args []Val, 
 	}
 	if !c.HasMod {
 		u.havocReachableArgs(st, args, pos)
+		u.havocGhostVars(st, pos)
 		u.bumpAlloc(st)
 		return
 	}
 	if c.ModAll {
 		u.havocReachableArgs(st, args, pos)
+		u.havocGhostVars(st, pos)
 	}
 	for _, m := range c.Modifies {
 		locs, ghost, err := u.modLocs(st, env, m)
@@ -497,13 +519,158 @@ func (u *Unit) frameCheckGhost(st *State, comp string, pos token.Pos) {
 // ---------------------------------------------------------------------------
 // havoc for calls without contract
 
+// havocGhostVars: a callee without a frame may change any ghost variable.
+func (u *Unit) havocGhostVars(st *State, pos token.Pos) {
+	for _, name := range sortedKeys(u.eng.ghostVars) {
+		u.frameCheckGhost(st, "G_"+name, pos)
+		u.heapHavoc(st, "G_"+name, u.eng.ghostVars[name])
+		if st.discover != nil {
+			st.discover.noteWhole("G_"+name, u.eng.ghostVars[name])
+		}
+	}
+}
+
+var dbCapable = []string{"gobuffalo/pop", "database/sql", "ory/x/popx", "ory/x/sqlcon", "jmoiron/sqlx"}
+
 func (u *Unit) havocCall(st *State, fr *Frame, name string, sig *types.Signature, args []Val, resv ssa.Value, pos token.Pos) {
 	u.abstraction("call havocked (no contract, not inlinable): " + stripMod(name))
-	u.havocReachableArgs(st, args, pos)
+	for _, p := range dbCapable {
+		if strings.Contains(name, p) {
+			// an uncontracted call into the database layer may change the stored state
+			if _, ok := u.eng.ghostVars["db"]; ok {
+				u.frameCheckGhost(st, "G_db", pos)
+				u.heapHavoc(st, "G_db", u.eng.ghostVars["db"])
+			}
+		}
+	}
+	u.havocArgsExternal(st, args, pos)
 	u.bumpAlloc(st)
 	if resv != nil {
 		fr.regs[resv] = u.freshVal(st, "hc", resv.Type())
 	}
+}
+
+// havocArgsExternal: effect of a call into code outside the repository that has no contract.
+// ASSUMPTION (listed in the evidence): such a callee writes only to the objects it is handed
+// (one level: the pointee of pointer arguments, the elements of slice arguments, map
+// arguments, and what closures passed to it captured), and every reference it stores there
+// is nil or freshly allocated.
+func (u *Unit) havocArgsExternal(st *State, args []Val, pos token.Pos) {
+	oldAlloc := st.alloc
+	seen := map[string]bool{}
+	var one func(a Val, depth int)
+	one = func(a Val, depth int) {
+		if a.T == nil || depth > 2 {
+			return
+		}
+		if _, isI := a.T.Underlying().(*types.Interface); isI {
+			if a.Dyn != nil {
+				if pv, err := u.ifacePtr(a); err == nil {
+					one(pv, depth)
+				}
+			}
+			return
+		}
+		if a.Fn != nil {
+			// the callee may run the closure: apply the closure's own frame when it has one
+			if cc := u.eng.contractFor(a.Fn.Fn); cc != nil && cc.HasMod && !cc.ModAll {
+				env := u.contractEnvFn(a.Fn.Fn, nil, a.Fn.Bind, nil, st)
+				for _, m := range cc.Modifies {
+					locs, ghost, err := u.modLocs(st, env, m)
+					if err != nil {
+						u.fail(fmt.Sprintf("%s: %v", cc.Where, err))
+						continue
+					}
+					if ghost != "" {
+						parts := strings.SplitN(ghost, "|", 2)
+						gname := strings.TrimPrefix(parts[0], "G_")
+						// a ghost variable that the closure provably preserves (it has the
+						// postcondition "<v> == old(<v>)", a reflexive and transitive relation) is
+						// unchanged however often and in whatever order the callee runs the closure
+						preserved := false
+						for _, en := range cc.Ensures {
+							if strings.Contains(strings.ReplaceAll(en.Src, " ", ""), gname+"==old("+gname+")") && en.Expr.Kind == SBinary && en.Expr.Op == "==" {
+								preserved = true
+							}
+						}
+						if preserved {
+							continue
+						}
+						u.frameCheckGhost(st, parts[0], pos)
+						u.heapHavoc(st, parts[0], parts[1])
+						continue
+					}
+					u.frameCheck(st, locs, pos)
+					for _, l := range locs {
+						if l.idx == "*" {
+							h := u.heapGet(st, l.comp, l.arrSort)
+							u.freshN++
+							fa := fmt.Sprintf("cl!%d", u.freshN)
+							st.add(fmt.Sprintf("(declare-const %s (Array Int %s))", fa, l.sort))
+							u.heapSetAt(st, l.comp, l.arrSort, fmt.Sprintf("(store %s %s %s)", h, l.ref, fa), l.ref)
+							continue
+						}
+						u.writeLoc(st, l, u.fresh(st, "cl", l.sort))
+					}
+				}
+				return
+			}
+			for _, b := range a.Fn.Bind {
+				if b.T != nil {
+					u.havocReachable(st, b.T, seen, 0, pos)
+				}
+			}
+			return
+		}
+		switch t := a.T.Underlying().(type) {
+		case *types.Pointer:
+			p := u.ptrOf(a)
+			if p == nil || p.Kind == PLocal || len(a.Terms) == 0 {
+				return
+			}
+			if et := t.Elem(); !flattenableStruct(et) {
+				if _, isStruct := et.Underlying().(*types.Struct); isStruct {
+					return // opaque external object: no observable components
+				}
+			}
+			locs, _ := u.locsOf(p)
+			u.frameCheck(st, locs, pos)
+			for _, l := range locs {
+				nv := u.fresh(st, "xh", l.sort)
+				u.writeLoc(st, l, nv)
+				switch l.leaf.Role {
+				case "slice.b":
+					st.assume(fmt.Sprintf("(or (= %s 0) (> %s %s))", nv, nv, oldAlloc))
+				case "":
+					if l.leaf.T != nil && pointerLike(l.leaf.T) {
+						if _, isSig := l.leaf.T.Underlying().(*types.Signature); !isSig {
+							st.assume(fmt.Sprintf("(or (= %s 0) (> %s %s))", nv, nv, oldAlloc))
+						}
+					}
+				}
+			}
+			_ = t
+		case *types.Slice:
+			for _, l := range u.elemLocs(t.Elem(), a.Terms[0], "*") {
+				u.frameCheck(st, []loc{l}, pos)
+				h := u.heapGet(st, l.comp, l.arrSort)
+				u.freshN++
+				fa := fmt.Sprintf("xa!%d", u.freshN)
+				st.add(fmt.Sprintf("(declare-const %s (Array Int %s))", fa, l.sort))
+				u.heapSetAt(st, l.comp, l.arrSort, fmt.Sprintf("(store %s %s %s)", h, l.ref, fa), l.ref)
+			}
+		case *types.Map:
+			for _, l := range u.mapLocs(a) {
+				u.frameCheck(st, []loc{l}, pos)
+				nv := u.fresh(st, "xm", l.sort)
+				u.writeLoc(st, l, nv)
+			}
+		}
+	}
+	for _, a := range args {
+		one(a, 0)
+	}
+	// typing of the fresh leaves refers to the allocation counter after the call
 }
 
 func (u *Unit) havocReachableArgs(st *State, args []Val, pos token.Pos) {
@@ -515,6 +682,14 @@ func (u *Unit) havocReachableArgs(st *State, args []Val, pos token.Pos) {
 		}
 		if t != nil {
 			u.havocReachable(st, t, seen, 0, pos)
+		}
+		// a closure handed to an unknown callee may run: everything it captured may change
+		if a.Fn != nil {
+			for _, b := range a.Fn.Bind {
+				if b.T != nil {
+					u.havocReachable(st, b.T, seen, 0, pos)
+				}
+			}
 		}
 	}
 }
@@ -932,4 +1107,13 @@ func (u *Unit) decreaseObligation(st *State, name string, calleeDec *Clause, cal
 		nonneg = append(nonneg, fmt.Sprintf("(<= 0 %s)", t))
 	}
 	u.oblige(st, name, "", sAnd(append(nonneg, less)...), pos, "termination measure decreases (lexicographic): "+calleeDec.Src, calleeDec.Props, calleeDec.Where)
+}
+
+// small, loop-free standard-library methods that are executed symbolically instead of being
+// given an assumed contract
+var inlineExternal = map[string]bool{
+	"net/url::(Values).Get": true,
+	"net/url::(Values).Has": true,
+	"net/url::(Values).Add": true,
+	"net/url::(Values).Set": true,
 }
